@@ -49,6 +49,7 @@ pub struct Seen {
     pub tls_invalid_names: u64,
     pub tls_payload_bytes: u64,
     pub later_live_untouched: u64,
+    pub preset_with_literal_host: u64,
 }
 
 // ------------------------------------------------------------------ resolution + TCP fallback
@@ -64,6 +65,9 @@ enum Entry {
 enum How {
     /// addresses pre-set on the request (set_addrs / with_addr): the resolver must not be consulted
     PreSet,
+    /// addresses pre-set on a request whose host string is itself an IP literal naming a different (live, decoy)
+    /// endpoint: the carried addresses win, the literal is never dialled
+    PreSetLiteralHost,
     /// host is an IPv4 literal "127.0.0.1:port" (single entry lists only)
     IpLiteral,
     /// host "svc.test:port" through a custom resolver returning the list
@@ -92,6 +96,8 @@ struct Net {
     lives: Vec<StdListener>,
     refused: Vec<SocketAddr>,
     unreachable: Option<SocketAddr>,
+    /// a live listener that is never part of an address list
+    decoy: StdListener,
 }
 
 impl Net {
@@ -114,7 +120,16 @@ impl Net {
             Err(e) if e.kind() != std::io::ErrorKind::ConnectionRefused && e.kind() != std::io::ErrorKind::TimedOut => Some(cand),
             _ => None,
         };
-        Net { lives, refused, unreachable }
+        let decoy = StdListener::bind("127.0.0.1:0").unwrap();
+        decoy.set_nonblocking(true).unwrap();
+        Net { lives, refused, unreachable, decoy }
+    }
+    fn drain_decoy(&self) -> usize {
+        let mut n = 0;
+        while self.decoy.accept().is_ok() {
+            n += 1;
+        }
+        n
     }
     fn drain(&self) -> Vec<usize> {
         self.lives
@@ -160,6 +175,7 @@ async fn tcp_case(net: &Net, list: &[Entry], how: How, local: bool, seen: &mut S
         })
         .collect();
     let _ = net.drain();
+    let _ = net.drain_decoy();
     let calls = Rc::new(RefCell::new(Vec::new()));
     let resolver = LogResolver {
         answer: if how == How::CustomErr { Err("scripted resolver failure".into()) } else { Ok(addrs.clone()) },
@@ -175,6 +191,7 @@ async fn tcp_case(net: &Net, list: &[Entry], how: How, local: bool, seen: &mut S
                 ConnectInfo::new("pre.test:1".to_string()).set_addrs(addrs.clone())
             }
         }
+        How::PreSetLiteralHost => ConnectInfo::new(format!("127.0.0.1:{}", net.decoy.local_addr().unwrap().port())).set_addrs(addrs.clone()),
         How::IpLiteral => ConnectInfo::new(format!("127.0.0.1:{}", addrs[0].port())),
         How::Custom | How::CustomErr => ConnectInfo::new("svc.test:77".to_string()),
     };
@@ -189,7 +206,33 @@ async fn tcp_case(net: &Net, list: &[Entry], how: How, local: bool, seen: &mut S
     };
     tokio::time::sleep(Duration::from_millis(2)).await;
     let accepted = net.drain();
+    let decoy_hits = net.drain_decoy();
     let calls = calls.borrow().clone();
+    let how_given = how;
+    // from here on a literal-host request that carries addresses is judged exactly like any request that carries
+    // addresses; one that carries none (empty list) is an IP literal dialled directly: the decoy is its only address
+    if how == How::PreSetLiteralHost && addrs.is_empty() {
+        seen.ip_literal_cases += 1;
+        if !calls.is_empty() {
+            return fail("C19:resolver-consulted-for-ip-literal", format!("{what}: the host is an IP literal but the resolver was called with {calls:?}"));
+        }
+        return match res {
+            Ok(conn) if decoy_hits == 1 && conn.io_ref().peer_addr().ok() == net.decoy.local_addr().ok() => Ok(()),
+            Ok(_) => fail("C19:connected-to-wrong-address", format!("{what}: literal host, no carried addresses: decoy listener accepted {decoy_hits} connection(s)")),
+            Err(e) => fail("C19:ip-literal-rejected", format!("{what}: {}", kind_of(&e))),
+        };
+    }
+    if how == How::PreSetLiteralHost {
+        seen.preset_with_literal_host += 1;
+        if decoy_hits != 0 {
+            return fail(
+                "C19:resolved-request-re-resolved",
+                format!("{what}: the request carried addresses {addrs:?} but the IP literal in its host string was dialled ({decoy_hits} connection(s) reached the decoy listener)"),
+            );
+        }
+    }
+    let how = if how == How::PreSetLiteralHost { How::PreSet } else { how };
+    let _ = how_given;
 
     // ---- resolver precedence
     let carries = how == How::PreSet && !addrs.is_empty();
@@ -311,6 +354,15 @@ async fn unit_cases(net: &Net, seen: &mut Seen) -> Vec<(String, Option<Fail>)> {
         match r {
             Ok(info) if info.addrs().collect::<Vec<_>>() == vec![a, net.refused[0]] && calls.borrow().is_empty() => None,
             Ok(info) => Some(Fail { sig: "C19:resolved-request-modified".into(), desc: format!("addresses after ResolverService: {:?}, resolver calls {:?}", info.addrs().collect::<Vec<_>>(), calls.borrow()) }),
+            Err(e) => Some(Fail { sig: "C19:resolved-request-rejected".into(), desc: kind_of(&e) }),
+        },
+    ));
+    let r = rs.call(ConnectInfo::new("10.9.9.9:1".to_string()).set_addrs(vec![net.refused[0], a])).await;
+    out.push((
+        "resolver/passthrough-literal-host".to_string(),
+        match r {
+            Ok(info) if info.addrs().collect::<Vec<_>>() == vec![net.refused[0], a] && calls.borrow().is_empty() => None,
+            Ok(info) => Some(Fail { sig: "C19:resolved-request-modified".into(), desc: format!("host 10.9.9.9:1 with carried addresses: addresses after ResolverService: {:?}, resolver calls {:?}", info.addrs().collect::<Vec<_>>(), calls.borrow()) }),
             Err(e) => Some(Fail { sig: "C19:resolved-request-rejected".into(), desc: kind_of(&e) }),
         },
     ));
@@ -545,7 +597,7 @@ pub fn run(args: &Args, rep: &mut Report) {
                             e
                         })
                         .collect();
-                    for how in [How::PreSet, How::Custom, How::CustomErr, How::IpLiteral] {
+                    for how in [How::PreSet, How::PreSetLiteralHost, How::Custom, How::CustomErr, How::IpLiteral] {
                         if how == How::IpLiteral && !(list.len() == 1 && list[0] != Entry::Unreachable) {
                             continue;
                         }
@@ -629,6 +681,7 @@ pub fn run(args: &Args, rep: &mut Report) {
     rep.add("obs_local_addr_cases", seen.local_addr_cases);
     rep.add("obs_ip_literal_cases", seen.ip_literal_cases);
     rep.add("obs_later_live_listener_untouched", seen.later_live_untouched);
+    rep.add("obs_carried_addresses_with_ip_literal_host", seen.preset_with_literal_host);
     rep.add("obs_tls_handshakes_ok", seen.tls_ok);
     rep.add("obs_tls_rejected", seen.tls_rejected);
     rep.add("obs_tls_invalid_names", seen.tls_invalid_names);
